@@ -231,6 +231,9 @@ def run_property(prop: str, tier: str, seed: int, update_baseline: bool = False)
         if (c_decl.ensures and "normal" not in live and "$noreturn" not in c_decl.env) and src_same:
             errors.append(f"{key}: no live normal exit although the contract has postconditions (vacuous proof)")
         for dk in sorted(dead_only):
+            cls_ = c_decl.raises.get(dk)
+            if cls_ and all(cl.expr.strip() == "False" for cl in cls_):
+                continue  # an outcome declared impossible ("False"): being unreachable is the point
             if src_same:
                 errors.append(f"{key}: every path to outcome {dk} is infeasible although it is generated (vacuous proof)")
         for o in rec["obligations"]:
